@@ -302,7 +302,7 @@ func init() {
 		Assumptions: []string{"ASCII titles", "a title that differs only in case from a used name may be refused or accepted"},
 		Floors:      map[string]int64{"register_calls": 500, "registrations_accepted": 100, "refusals_checked_for_side_effects": 50, "roundtrips": 5000, "custom_levels_probed": 500},
 		Jobs: func(tier string, seed int64) []Job {
-			return chunk("hist", "prod", pick(tier, 400, 40000), 1, Job{Timeout: 10 * time.Minute})
+			return chunk("hist", "prod", pick(tier, 400, 40000), 1, Job{Timeout: 2 * time.Minute}) // a case takes milliseconds; a call that never returns ends as INCONCLUSIVE
 		},
 	})
 	register(&Plan{
